@@ -91,17 +91,75 @@ func rulePipeline(c *Ctx) {
 			}
 		}
 		nMain++
-		var edges []ssa.Value
-		if phi, ok := v.(*ssa.Phi); ok {
-			edges = phi.Edges
-		} else {
-			edges = []ssa.Value{v}
+		// the values the list can be: merge points are split, and a helper of the package that hands its list
+		// parameter on (unchanged, or as a prefix) is entered with its parameters bound to the call's arguments
+		type edgeT struct {
+			v    ssa.Value
+			bind map[ssa.Value]ssa.Value
+		}
+		resolve := func(x ssa.Value, bind map[ssa.Value]ssa.Value) ssa.Value {
+			for range 4 {
+				b, ok := bind[stripConv(x)]
+				if !ok {
+					break
+				}
+				x = b
+			}
+			return x
+		}
+		var edgesB []edgeT
+		var expand func(x ssa.Value, bind map[ssa.Value]ssa.Value, depth int)
+		expand = func(x ssa.Value, bind map[ssa.Value]ssa.Value, depth int) {
+			x = resolve(x, bind)
+			if phi, ok := x.(*ssa.Phi); ok && depth < 4 {
+				for _, e := range phi.Edges {
+					expand(e, bind, depth+1)
+				}
+				return
+			}
+			if call, ok := x.(*ssa.Call); ok && isRank(x) == nil && depth < 4 {
+				if cal := call.Call.StaticCallee(); cal != nil && cal.Pkg == spk && cal.Blocks != nil && cal.Signature.Results().Len() == 1 {
+					nb := map[ssa.Value]ssa.Value{}
+					for k, w := range bind {
+						nb[k] = w
+					}
+					for i, p := range cal.Params {
+						if i < len(call.Call.Args) {
+							nb[p] = resolve(call.Call.Args[i], bind)
+						}
+					}
+					n := 0
+					for _, b := range cal.Blocks {
+						if r, ok := b.Instrs[len(b.Instrs)-1].(*ssa.Return); ok {
+							n++
+							expand(unspillResult(r.Results[0], b), nb, depth+1)
+						}
+					}
+					if n > 0 {
+						return
+					}
+				}
+			}
+			edgesB = append(edgesB, edgeT{x, bind})
+		}
+		expand(v, map[ssa.Value]ssa.Value{}, 0)
+		sliceB := func(x ssa.Value, bind map[ssa.Value]ssa.Value) map[ssa.Value]bool {
+			out := backSlice(x)
+			for w := range out {
+				if b, ok := bind[w]; ok {
+					for z := range backSlice(resolve(b, bind)) {
+						out[z] = true
+					}
+				}
+			}
+			return out
 		}
 		var rank *ssa.Call
 		okShape := true
 		why := ""
 		nSlice := 0
-		for _, e := range edges {
+		for _, eb := range edgesB {
+			e, bind := eb.v, eb.bind
 			if r := isRank(e); r != nil {
 				rank = r
 				continue
@@ -112,7 +170,7 @@ func rulePipeline(c *Ctx) {
 				why = "the returned list is neither the ranked list nor a prefix slice of it (" + e.String() + ")"
 				continue
 			}
-			r := isRank(sl.X)
+			r := isRank(resolve(sl.X, bind))
 			if r == nil {
 				okShape = false
 				why = "the list is truncated before ranking (the sliced value is not the result of the ranking step)"
@@ -124,18 +182,39 @@ func rulePipeline(c *Ctx) {
 				okShape = false
 				why = "truncation does not keep a zero-based prefix"
 			}
-			if sl.High == nil || !sliceHasFieldRead(backSlice(sl.High), limitField) {
+			if sl.High == nil || !sliceHasFieldRead(sliceB(sl.High, bind), limitField) {
 				okShape = false
 				why = "the truncation bound is not the configured maximum"
 			}
 			// control dependence: len(ranked) > MaxResults
 			guard := false
-			for _, cond := range controlConds(sl.Block()) {
-				if bin, ok := cond.(*ssa.BinOp); ok && bin.Op == token.GTR {
-					if lc, ok := bin.X.(*ssa.Call); ok {
-						if bi, ok := lc.Call.Value.(*ssa.Builtin); ok && bi.Name() == "len" && lc.Call.Args[0] == sl.X && sliceHasFieldRead(backSlice(bin.Y), limitField) {
-							guard = true
-						}
+			for _, cc := range controlCondsPol(sl.Block()) {
+				bin, ok := cc.Cond.(*ssa.BinOp)
+				if !ok {
+					continue
+				}
+				// `len(list) > max` holds: written that way, or as the failed test `len(list) <= max` (an early return),
+				// or with the operands swapped
+				lenSide, maxSide := bin.X, bin.Y
+				op := bin.Op
+				if _, isLen := lenSide.(*ssa.Call); !isLen {
+					lenSide, maxSide = bin.Y, bin.X
+					switch op {
+					case token.LSS:
+						op = token.GTR
+					case token.GEQ:
+						op = token.LEQ
+					default:
+						continue
+					}
+				}
+				holds := (op == token.GTR && cc.Taken) || (op == token.LEQ && !cc.Taken)
+				if !holds {
+					continue
+				}
+				if lc, ok := lenSide.(*ssa.Call); ok {
+					if bi, ok := lc.Call.Value.(*ssa.Builtin); ok && bi.Name() == "len" && lc.Call.Args[0] == sl.X && sliceHasFieldRead(sliceB(maxSide, bind), limitField) {
+						guard = true
 					}
 				}
 			}
@@ -150,13 +229,13 @@ func rulePipeline(c *Ctx) {
 								continue
 							}
 						}
-						if sliceHasFieldRead(backSlice(a), limitField) {
+						if sliceHasFieldRead(sliceB(a, bind), limitField) {
 							hasMax = true
 						}
 					}
 					positive := false
 					for _, cond := range controlConds(sl.Block()) {
-						if bin, ok := cond.(*ssa.BinOp); ok && sliceHasFieldRead(backSlice(bin.X), limitField) {
+						if bin, ok := cond.(*ssa.BinOp); ok && sliceHasFieldRead(sliceB(bin.X, bind), limitField) {
 							if k, ok := bin.Y.(*ssa.Const); ok && k.Value != nil {
 								if (bin.Op == token.GTR && k.Int64() == 0) || (bin.Op == token.GEQ && k.Int64() == 1) {
 									positive = true
